@@ -3394,8 +3394,12 @@ HMCPcloseAID(accrec_t *access_rec /* IN:  access record of file to close */)
        If no more references to that, free the record */
     if (--(info->attached) == 0) {
         if (info->chk_cache != NULL) {
-            /* Sync chunk cache */
-            mcache_sync(info->chk_cache);
+            /* Sync chunk cache; finish the clean-up even if a chunk could
+               not be written, but report it */
+            if (mcache_sync(info->chk_cache) == RET_ERROR) {
+                HERROR(DFE_WRITEERROR);
+                ret_value = FAIL;
+            }
 #ifdef STATISTICS
             /* cache statistics if 'mcache.c' complied with -DSTATISTICS */
             mcache_stat(info->chk_cache);
